@@ -127,7 +127,11 @@ static uint8_t loop_stop(m_ctx_t *c) {
      * and last module's tried to call m_ctx_deregister(), it returned -EPERM.
      * Gracefully deregister it now.
      */
-    if (m_map_len(c->modules) == 0 && !(c->flags & M_CTX_PERSIST)) {
+    if (m_map_len(c->modules) == 0 && !(c->flags & M_CTX_PERSIST) && ctx_is_current(c)) {
+        /*
+         * Only if it is still the context of this thread: a callback invoked while flushing
+         * may have deregistered it, and registered a new one, that is none of our business.
+         */
         m_ctx_deregister();
     }
     m_mem_unref(c);
@@ -422,6 +426,11 @@ static int ctx_new(const char *ctx_name, m_ctx_flags flags, const void *userdata
 }
 
 /** Private API **/
+
+/* Is it (still) the context of the calling thread? A user callback may have deregistered it, and registered a new one */
+bool ctx_is_current(const m_ctx_t *c) {
+    return pthread_getspecific(key) == c;
+}
 
 m_ctx_t *m_ctx(void) {
     m_ctx_t *c = pthread_getspecific(key);
